@@ -295,11 +295,15 @@ func raceClients() []raceClient {
 			}, func() {}
 		}})
 
-	out = append(out, raceClient{name: "csync.RWMutex", methods: []string{"Lock(w)", "Lock(r)", "TryLock(w)", "TryLock(r)", "Lock(cancel)", "Locker", "RLocker"},
-		build: func(_ *xorshift) ([]func(int, *xorshift), func()) {
+	out = append(out, raceClient{name: "csync.RWMutex", methods: []string{"Lock(w)", "Lock(r)", "TryLock(w)", "TryLock(r)", "Lock(cancel)", "Locker", "RLocker", "Locker()", "RLocker()"},
+		build: func(s *xorshift) ([]func(int, *xorshift), func()) {
 			var m csync.RWMutex
 			shared := 0
-			wl, rl := m.Locker(), m.RLocker()
+			// in half of the programs nobody has asked for a locker before the goroutines start
+			var wl, rl sync.Locker = &sync.Mutex{}, &sync.Mutex{}
+			if s.IntN(2) == 0 {
+				wl, rl = m.Locker(), m.RLocker()
+			}
 			return []func(int, *xorshift){
 				func(int, *xorshift) {
 					if rel, err := m.Lock(bg, true); err == nil {
@@ -334,8 +338,11 @@ func raceClients() []raceClient {
 						rel()
 					}
 				},
-				func(int, *xorshift) { wl.Lock(); shared++; wl.Unlock() },
-				func(int, *xorshift) { rl.Lock(); _ = shared; rl.Unlock() },
+				func(int, *xorshift) { wl.Lock(); wl.Unlock() },
+				func(int, *xorshift) { rl.Lock(); rl.Unlock() },
+				// lockers obtained by the goroutine that uses them (the first calls of Locker/RLocker may be concurrent)
+				func(int, *xorshift) { l := m.Locker(); l.Lock(); shared++; l.Unlock() },
+				func(int, *xorshift) { l := m.RLocker(); l.Lock(); _ = shared; l.Unlock() },
 			}, func() {}
 		}})
 
